@@ -329,6 +329,9 @@ func newXMLSpace() *xmlSpace {
 		{Name: "ctype", Vals: []string{"app-xml", "text-xml"}},
 		{Name: "first-url", Vals: classNames(), Free: true},
 		{Name: "hops", Vals: hopNames},
+		// how careful the producer was with entities: clean; the URLs written with a bare "&" (feeds in the wild do
+		// that, tolerant tokenizers pass it through); an HTML entity XML does not know, in text next to the URLs
+		{Name: "escaping", Vals: []string{"entities", "bare-ampersand", "html-entity-in-text"}},
 	}}
 }
 
@@ -372,6 +375,13 @@ func (s *xmlSpace) Build(d []int) *Case {
 		return t
 	}
 	e1, e2 := xmlEsc.Replace(u1.Ref), xmlEsc.Replace(u2.Ref)
+	title := "plain &amp; simple"
+	switch d[8] {
+	case 1:
+		e1, e2 = u1.Ref, u2.Ref // none of the planted URLs holds < > or a quote
+	case 2:
+		title = "plain&nbsp;&amp;&nbsp;simple"
+	}
 	el := func(name, content string) string { return "<" + pfx + name + ">" + content + "</" + pfx + name + ">" }
 	var c string
 	switch carrier {
@@ -406,7 +416,7 @@ func (s *xmlSpace) Build(d []int) *Case {
 	}
 	b.WriteString(open + nl)
 	b.WriteString(i1 + "<" + pfx + k.wrap + ">" + nl)
-	b.WriteString(i2 + el("title", "plain &amp; simple") + nl)
+	b.WriteString(i2 + el("title", title) + nl)
 	b.WriteString(i2 + c + nl)
 	b.WriteString(i1 + "</" + pfx + k.wrap + ">" + nl)
 	b.WriteString(cl + nl)
